@@ -208,6 +208,12 @@ func alphabet(server bool) []op {
 				}})
 			}
 		}
+		if !server {
+			// the option given twice (lenient defaults of the caller's, then the request's own flag): the later one counts
+			ops = append(ops, op{name: fmt.Sprintf("DeleteMode(%s,allowMissing=true then false)", id), kind: "delete", arg: id, allow: false, run: func(x *sys) error {
+				return x.m.DeleteMode(x.id(id), resource.WithAllowMissing(true), resource.WithAllowMissing(false))
+			}})
+		}
 		for _, allow := range []bool{false, true} {
 			allow := allow
 			if !server {
